@@ -63,6 +63,12 @@ def Ty.wt : Ty → WT
   | .map _ _ false => .slice
   | .map _ _ true => .len
 
+/-- `isProtoSlice` in codec.go: the codec, or what it points to, is a ProtoSliceWrapper. -/
+def Ty.isProtoSlice : Ty → Bool
+  | .pslice _ => true
+  | .ptr t => t.isProtoSlice
+  | _ => false
+
 /-! ### zero values -/
 
 mutual
